@@ -226,6 +226,31 @@ def core_decodes_in_streaming_mode(prog, res):
     res.need(R, 2)
 
 
+def empty_block_is_raw(prog, res):
+    """T9 (one-shot / streaming verdicts): ZSTD_decompressContinue ends a block at its header when the stored size is 0.
+    ZSTD_decompressFrame hands a Compressed_Block of size 0 to the block decoder, which refuses it (no section headers): the
+    header-only arm of the streaming decoder may be left towards the next stage only on the edge where the block is NOT of
+    the compressed type."""
+    R = "T9.empty-block-is-not-compressed"
+    f = prog.fn("ZSTD_decompressContinue")
+    sized = [d for n, ds in f.local_defs().items() for d in ds if d is not None and any(is_call(y, "ZSTD_getcBlockSize") for y in walk(d))]
+    isz = lambda c: c.get("k") == "ref" and f.single_def(c.get("n")) is not None and any(is_call(y, "ZSTD_getcBlockSize") for y in walk(f.single_def(c["n"])))
+    empty = guards.truthy_edges(f, isz, truth=False)
+    res.check(bool(sized) and len(empty) == 1, R, "header-only-arm", f.loc, "one `stored size == 0` edge after ZSTD_getcBlockSize", "header-only arms found: %d" % len(empty))
+    notc = guards.rel_edges(f, lambda a: any(y.get("k") == "mem" and y.get("f") == "blockType" for y in walk(a)), "==",
+                            lambda b_: any(y.get("n") == "bt_compressed" for y in walk(b_)), truth=False)
+    stage = [(b, i) for b, i, x in f.events(lambda y: y.get("k") == "asg" and strip_casts(y["lhs"]).get("k") == "mem" and strip_casts(y["lhs"]).get("f") == "stage")]
+    after = f.flow([(e[1], 0) for e in empty]) if empty else set()
+    nxt = [t for t in stage if t in after]
+    # stage writes that are ALSO reachable without the empty edge belong to later stages of the switch: keep those first reached
+    nxt = [t for t in nxt if not any(o != t and t in f.flow([(o[0], o[1] + 1)]) and o in after for o in nxt)]
+    ok = bool(notc) and bool(nxt) and f.must_pass(via_edges=notc, starts=[(e[1], 0) for e in empty], targets=nxt)
+    res.check(ok, R, "only-when-not-compressed", f.loc, "the header-only arm moves on only for a block that is not of the compressed type",
+              "ZSTD_decompressContinue takes a Compressed_Block of size 0 for an empty block: ZSTD_decompressStream accepts a frame that ZSTD_decompress "
+              "refuses (corruption_detected)")
+    res.need(R, 2)
+
+
 def run(tier):
     res = Result("C02", tier)
     tus, info = extract(["compress", "decompress", "deprecated", "common"])
@@ -238,6 +263,7 @@ def run(tier):
     overlap_trim(prog, res)
     zbuff_wrappers(prog, res)
     core_decodes_in_streaming_mode(prog, res)
+    empty_block_is_raw(prog, res)
     single_pass_shortcut(prog, res)
     from .C10 import staging_buffer          # shared clause: the staging buffer holds every unit the decoder can ask for
     staging_buffer(prog, res)
